@@ -10,7 +10,7 @@ def seqs : Nat → List (List Call)
 def callStr (cs : List Call) : String := String.ofList (cs.map fun c => match c with | .start => 'S' | .stop => 'T')
 
 def specLine (cs : List Call) : String :=
-  "res ok results=" ++ ",".intercalate ((specResults false cs).map fun e => if e then "1" else "0") ++ " corrupt=0 leak=0 rebind=1 dead=0"
+  "res ok results=" ++ ",".intercalate ((specResults false cs).map fun e => if e then "1" else "0") ++ " corrupt=0 leak=0 rebind=1 dead=0 stolen=0"
 
 /-- every Start/Stop sequence of length 1..maxLen, on rotating receiver configurations; plus drain runs -/
 def gen (maxLen : Nat) : G (List String) := do
@@ -22,6 +22,11 @@ def gen (maxLen : Nat) : G (List String) := do
       let cfg := cfgs.getD (i % cfgs.length) "1 1 8 1"
       i := i + 1
       out := out ++ ["updown " ++ cfg ++ " " ++ callStr s, "expect " ++ specLine s]
+  -- many Start / Stop cycles under continuous traffic on the synchronous configurations (blocking, queue size 0): a reader
+  -- that picks a datagram up while Stop is in progress must not keep Stop from returning
+  for cfg in ["1 1 0 1", "2 2 0 1", "1 4 0 1", "2 1 1 1"] do
+    let cyc : List Call := (List.replicate 25 [Call.start, Call.stop]).flatten
+    out := out ++ ["updown " ++ cfg ++ " " ++ callStr cyc, "expect " ++ specLine cyc]
   for (sk, wk, q, k) in [(1, 1, 1000, 40), (2, 4, 1000, 200), (1, 8, 64, 50), (4, 2, 1000, 300)] do
     out := out ++ ["drain " ++ toString sk ++ " " ++ toString wk ++ " " ++ toString q ++ " " ++ toString k, "expect res ok stop=ok undecoded=0"]
   pure out
